@@ -157,6 +157,11 @@ func genTests(r *Rng, c *GenCfg, n *Node) {
 		var t TestSpec
 		if r.P(c.PCustomT) || n.Kind == "struct" {
 			t = TestSpec{T: "custom", Mod: int64(Pick(r, []int{0, 1, 2, 3, 3})), Code: "c" + strconv.Itoa(i)}
+			if n.Kind == "struct" || n.Kind == "slice" {
+				// container-level custom tests have a constant verdict: the model does not
+				// claim to know every byte of a partially parsed container
+				t.Mod = int64(Pick(r, []int{0, 0, 1}))
+			}
 			if t.Mod > 1 {
 				t.Rem = int64(r.Intn(int(t.Mod)))
 			}
@@ -202,7 +207,8 @@ func genTests(r *Rng, c *GenCfg, n *Node) {
 				k := Pick(r, []string{"min", "max", "len", "contains"})
 				t = TestSpec{T: k, N: int64(r.Intn(4))}
 				if k == "contains" {
-					if !n.Elem.IsPrim() {
+					// time elements: "membership by deep equality" depends on the Location pointer, not the instant
+					if !n.Elem.IsPrim() || n.Elem.Kind == "time" {
 						t.T = "min"
 					} else {
 						t.L = []Val{genTyped(r, n.Elem.Kind)}
